@@ -325,7 +325,7 @@ pub fn c13(ctx: &Ctx) -> Report {
             if fs > 100.0 && t > 0.06 && !(thorough && fs == 1000.0) {
                 continue;
             }
-            for (a, b) in [(0.0f32, 1.0f32), (1.0, 0.0), (0.0, 10.0), (-1.0, 1.0), (5.0, 5.083_333_5), (0.25, 0.75)] {
+            for (a, b) in [(0.0f32, 1.0f32), (1.0, 0.0), (0.0, 10.0), (-1.0, 1.0), (5.0, 5.083_333_5), (0.25, 0.75), (0.0, 1.0e-10), (0.0, -1.0e-13), (1.0e-30, 3.0e-30), (0.0, 1.0e10), (-2.5e3, 1.0e3)] {
                 jobs.push((fs, t, a, b));
             }
         }
@@ -425,14 +425,10 @@ pub fn c14(ctx: &Ctx) -> Report {
     for fs in rates {
         let mut t = 100.0 / fs;
         while t < 10.0 {
-            if thorough || t * fs <= 200_000.0 {
-                jobs.push((fs, t));
-            }
+            jobs.push((fs, t));
             t *= if thorough { 1.13 } else { 1.5 };
         }
-        if thorough || fs <= 8000.0 {
-            jobs.push((fs, 10.0));
-        }
+        jobs.push((fs, 10.0));
         for t in [0.0f32, 0.1 / fs, 1.0 / fs, 1.9 / fs] {
             jobs.push((fs, t));
         }
@@ -446,7 +442,31 @@ pub fn c14(ctx: &Ctx) -> Report {
     par_ranges(ctx, &mut rep, jobs.len() as u64, jobs.len() as u64, |_, lo, hi, lc| {
         for j in lo..hi {
             let (fs, t) = jr[j as usize];
-            for (a, b) in steps {
+            let r = std::panic::catch_unwind(std::panic::AssertUnwindSafe(|| {
+                let mut local = LocalCounts::default();
+                plane_job(fs, t, &steps, &mut local);
+                local
+            }));
+            match r {
+                Ok(local) => merge_local(lc, local),
+                Err(e) => lc.violation(viol("C14", "panic", format!("the real code panicked while measuring the step response at fs={} Hz, t={:?} s: {}", fs, t, panic_msg(&e)), fs, vec![format!("set_time:{:?}", t), "process:5.0*100000".into()])),
+            }
+        }
+    });
+    fn merge_local(lc: &mut LocalCounts, l: LocalCounts) {
+        for (k, v) in l.counters {
+            lc.count(k, v);
+        }
+        for (k, v) in l.maxima {
+            lc.maxf(k, v);
+        }
+        for v in l.viols {
+            lc.violation(v);
+        }
+    }
+    fn plane_job(fs: f32, t: f32, steps: &[(f32, f32); 6], lc: &mut LocalCounts) {
+        {
+            for &(a, b) in steps.iter() {
                 for from_rest in [true, false] {
                     if from_rest && a != 0.0 {
                         continue;
@@ -518,7 +538,7 @@ pub fn c14(ctx: &Ctx) -> Report {
                 }
             }
         }
-    });
+    }
     // every integer sample rate in [100, 48000] (quick: every 16th): step from rest at three times
     {
         let stride: u64 = if thorough { 1 } else { 16 };
